@@ -31,6 +31,7 @@ func init() {
 				ct := getChunkTables(c, r, "lib:")
 				ruleWriter2(c, r, ct, "lib:")
 				ruleDeepCopy(c, r, "lib:")
+				ruleChunkHeaderCodec(c, r, ct, "lib:")
 			}
 			ruleDecoderBounds(c, r, "lib:")
 		},
@@ -68,6 +69,10 @@ func init() {
 				ruleChunkHeaderCodec(c, r, ct, "lib:")
 			}
 			ruleLcLp(c, r, "lib:")
+			{
+				ct := getChunkTables(c, r, "lib:")
+				ruleChunkAutomaton(c, r, ct, "lib:", "equal")
+			}
 			ruleDeferResult(c, r, "")
 			ruleReaderWindow(c, r, "")
 			ruleGxzDataSafety(c, r, "")
